@@ -37,10 +37,12 @@ HFLAGS = ["-std=c++20", "-O0", "-g", "-fsanitize=address,undefined", "-fno-sanit
           "-fno-omit-frame-pointer", "-Wno-deprecated-declarations"]
 MODES = (("0", "-DTETL_ENABLE_CONTRACT_CHECKS=1", "c05_harness_checks"),
          ("1", "-DTETL_ENABLE_CONTRACT_CHECKS_SAFE=1", "c05_harness_safe"))
-RULE = ("every operation of the 11 modelled families (static_vector with trivial / non-trivial / zero storage, inplace_vector, "
-        "string_view, span, array, inplace_string, optional/expected/variant, bitset/basic_bitset, bit functions, div_sat, "
-        "chrono day/month, mdspan stride, C string null checks, static_set range constructor) x every size 0..capacity of the "
-        "small capacities (1,3,4; strings 4 and 20; bitsets 5 and 11) x every index / position / count in "
+RULE = ("every operation of the modelled families (static_vector with trivial / non-trivial / zero storage, inplace_vector, "
+        "string_view, span, array incl. array<T, 0>, inplace_string incl. insert / erase by index, optional/expected/variant, "
+        "bitset/basic_bitset, bit functions, div_sat, chrono day/month, mdspan stride of layout_left / layout_right / layout_stride, "
+        "C string null checks, static_set range constructor, linalg add / copy / swap_elements / matrix_vector_product extents "
+        "checks, to_string<Capacity>) x every size 0..capacity of the "
+        "small capacities (1,3,4; strings 4 and 20; bitsets 5 and 11; arrays 0,1,3; linalg extents 0..3) x every index / position / count in "
         "{-1 (iterators), 0 .. size+2, capacity+1, 2^31, 2^32, 2^63-1, 2^63, 2^64-2, 2^64-1} x const / ref-qualified overload x "
         "both configurations (TETL_ENABLE_CONTRACT_CHECKS, ..._SAFE); element values from the seeded PRNG; thorough adds more "
         "contents per size and random argument mixes.  Each line runs in a forked child.  Non-trivial: the call violates the "
@@ -49,8 +51,12 @@ RULE = ("every operation of the 11 modelled families (static_vector with trivial
 ASSUMPTIONS = ["the oracle column is computed in the harness from the documented precondition and std::vector / plain arithmetic (R2)",
                "objects are modelled by capacity + live elements (+ active alternative); element types int / char / a non-trivial int wrapper",
                "replace counts are generated below 2^63 (size_t wrap of pos + count in replace belongs to the known finding of C04)",
-               "array::operator[] is checked only under TETL_ENABLE_CONTRACT_CHECKS_SAFE (TETL_PRECONDITION_SAFE): violating "
-               "indices are generated for the SAFE build only"]
+               "array<T, N>::operator[] with N > 0 is checked only under TETL_ENABLE_CONTRACT_CHECKS_SAFE (TETL_PRECONDITION_SAFE, the "
+               "library's 'all/slow assertions' level): violating indices are generated for the SAFE build only; array<T, 0> is "
+               "checked in both configurations",
+               "inplace_string::insert is driven with units that fit (size + count <= capacity): insert clamps silently otherwise "
+               "(tetl's truncating append, a subject of C04, not a contract check)",
+               "linalg and to_string are modelled by their checks only (the element loops / the digits are not compared)"]
 TRUSTED = ["gen/sites.py (text-level extractor of the check sites; its inventory is cross-checked on every run against the "
            "file:line the real handler reports for each driven site)",
            "hand models Tetl/C05/Model.lean tied to the source by the correspondence run (R1) in both configurations",
@@ -61,30 +67,37 @@ TECHNIQUE = ("Lean 4 proof: guard-carrying models = documented-precondition spec
              "inventory regenerated from the headers on every run and compared in the kernel; fork-per-call correspondence "
              "run in both contract-check configurations")
 LEVEL_TEXT = ("Every TETL_PRECONDITION / _SAFE / TETL_ASSERT site of the current headers is re-extracted on every run; a kernel-checked "
-              "theorem states that this inventory is exactly the list of guards carried by the Lean models (plus an explicit list "
-              "of sites not modelled).  For 45 operation schemas (element access / front / back / push / emplace_back / pop / clear of static_vector over its three storage classes, element access / front / back / pop / append of "
-              "inplace_vector, string_view, span, array, inplace_string; optional / expected / variant access; bit functions, div_sat, "
-              "chrono day/month, mdspan stride, static_set range constructor) Lean proves, for every capacity, object and argument "
+              "theorem states that this inventory is exactly the list of guards carried by the Lean models (plus the two sites inside "
+              "format_to, which no public call can reach).  For EVERY operation schema of the model language (Proved_all: 74 schemas - "
+              "static_vector element access / front / back / push / emplace_back / pop / clear / insert x4 / emplace / range insert / "
+              "erase x2 / resize x2 / assign x2 / the three sized constructors over its three storage classes; inplace_vector; "
+              "string_view; span; array; inplace_string constructors / assign / push / pop / erase (iterator and index) / insert / "
+              "replace; optional / expected / variant access; bitset and basic_bitset accessors and the string constructor; bit "
+              "functions, div_sat, chrono day/month, mdspan stride, C string null checks, static_set range constructor, linalg "
+              "extents checks, to_string) Lean proves, for every capacity, object and argument "
               "(no bound), that the model run equals the specification: a violated documented precondition ends in the handler at "
               "the site of the first violated clause with the object unchanged and before any out-of-range access; a valid call "
-              "never reaches the handler and never leaves the live range.  The models are tied to the code by running every "
+              "never reaches the handler and never leaves the live range.  replace is proved outside the input class of known "
+              "finding F-C05-replace-pre (replace_valid_partial / replace_counterexample).  The models are tied to the code by running every "
               "operation with valid and violating arguments (boundary, boundary+1, 2^31..2^64-1) in forked children of two "
               "sanitizer builds with a snapshotting assert handler, and comparing site (file:line), snapshot and result.")
 LEVEL_NOTE = ("Trusted: Lean kernel + propext/Classical.choice/Quot.sound; the text-level site extractor; the hand models' "
-              "fidelity outside the explored inputs; g++-12/ASan/UBSan/fork as observer.  Sites carried but not driven "
-              "(linalg, format, to_string) and operations compared only by the differential run are listed in evidence "
-              "coverage.unmodelled_sites / correspondence_only.")
-# operations modelled and compared on every run whose equation model = spec is not (yet) a Lean theorem
-CORRESPONDENCE_ONLY = [
-    "static_vector: insert(pos,n,x), insert(pos,const&), insert(pos,&&), emplace, "
-    "insert(pos,first,last), erase(pos), erase(first,last), resize(n), resize(n,v), assign(n,v), assign(first,last), "
-    "the three sized constructors (modelled with every nested guard incl. the storage classes; Tetl.C05.Props.Proved = false)",
-    "basic_inplace_string: (ptr,len) constructor, assign(ptr,count), push_back, erase(first,last), replace overloads "
-    "(replace: known finding F-C05-replace-pre, counterexample theorem only)",
-    "bitset / basic_bitset bit accessors, bitset(string_view,pos,n)", "C string null checks (memmove, strcpy, strncpy, strchr, wcscpy, wcsncpy)"]
-UNPROVED_OBSERVED = ["sites of linalg (extents equality), format and to_string are inventoried (sites_accounted) but have no model operation and are not driven"]
+              "fidelity outside the explored inputs; g++-12/ASan/UBSan/fork as observer.  Well-formedness hypotheses of run_eq_expect "
+              "(Tetl.C05.Props.WF): class invariant, capacity < 2^64, storage class matches the capacity, fresh object for constructors, "
+              "inserted units fit, replace outside the known-finding class.  The two sites inside format_to are inventoried "
+              "(sites_accounted) but not driven: format_to does not compile for any public output iterator (evidence coverage.unmodelled_sites).")
+# operations modelled and compared on every run whose equation model = spec is not (yet) a Lean theorem: none
+CORRESPONDENCE_ONLY = []
+UNPROVED_OBSERVED = ["the two check sites inside format_to / format_escaped_sequences are inventoried (sites_accounted) but have no model "
+                     "operation and are not driven: etl::format_to(out, fmt, args...) constructs format_context{out}, which only accepts "
+                     "back_insert_iterator<detail::fmt_buffer<char>> - it does not compile for char*, back_inserter(inplace_string) or any "
+                     "other public output iterator, and detail::fmt_buffer keeps a pointer to its by-value constructor parameter "
+                     "(ASan: stack-buffer-overflow on first use)",
+                     "inner guards that the outer documented precondition implies (unsafe_set_size, unsafe_destroy, move_insert's capacity "
+                     "check, inplace_vector::unsafe_set_size, unsafe_at) never fire on the explored inputs; that they cannot fire is "
+                     "part of run_eq_expect"]
 THEOREMS = {"*": ["Tetl.C05.Props.sites_accounted", "Tetl.C05.Props.run_eq_expect", "Tetl.C05.Props.violation_asserts",
-                  "Tetl.C05.Props.valid_never_asserts"]}
+                  "Tetl.C05.Props.valid_never_asserts", "Tetl.C05.Props.Proved_all", "Tetl.C05.Props.replace_valid_partial"]}
 
 U63, U64 = 2 ** 63, 2 ** 64
 BIG = [2 ** 31, 2 ** 32, U63 - 1, U63, U64 - 2, "npos"]
@@ -365,7 +378,7 @@ def classify(case, k, row):
     a = args_of(line)
     if op == "str.replace":
         n, pos, cnt = len(lst(a["e"])), num(a["a"]), num(a["b"])
-        if pos <= n and not (pos < n and (pos + cnt) % U64 < n) and row.impl.startswith("assert("):
+        if pos <= n and not (pos + cnt < n) and row.impl.startswith("assert("):   # Props.ReplaceExcluded
             return "F-C05-replace-pre"
     if op == "str.replace_sub":
         n, pos, m, pos2 = len(lst(a["e"])), num(a["a"]), len(lst(a["xs"])), num(a["c"])
@@ -610,7 +623,7 @@ def run(ctx, replay=None):
         "sites_fired_by_a_violating_call": len(fired_sites),
         "sites_never_fired": [s for s in all_sites if s not in fired_sites],
         "unmodelled_sites": ["%s:%d %s [%s]" % (s["file"], s["line"], s["qfunc"], s["cond"]) for s in inv
-                             if s["file"].startswith(("_linalg/", "_format/")) or s["file"] == "_string/to_string.hpp"],
+                             if s["file"].startswith("_format/")],
         "source_hashes": lib.source_hashes(SOURCES),
         "notes": ctx.notes,
         "unproved_observed": UNPROVED_OBSERVED,
